@@ -16,7 +16,7 @@ def family(pid):
 
 @family("C01")
 def fam_c01(rnd, tier):
-    n = 700 if tier == "quick" else 25000
+    n = 2000 if tier == "quick" else 25000
     out = []
     for i in range(n):
         ast, pos = gen.program_c01(rnd)
@@ -24,14 +24,16 @@ def fam_c01(rnd, tier):
     # (i) exhaustive operator table over the special atoms; precedence/associativity chains printed WITHOUT parentheses
     for i, ast in enumerate(gen.operator_table_programs()):
         out.append((f"c01op:{i}", ast, ["canon"]))
-    for i, ast in enumerate(gen.precedence_programs(rnd, 300 if tier == "quick" else 20000)):
+    for i, ast in enumerate(gen.precedence_programs(rnd, 800 if tier == "quick" else 20000)):
         out.append((f"c01prec:{i}", ast, ["min"]))
+    for i, ast in enumerate(gen.index_twice_programs()):
+        out.append((f"c01ix:{i}", ast, ["canon"]))
     return out
 
 
 @family("C02")
 def fam_c02(rnd, tier):
-    n = 400 if tier == "quick" else 12000
+    n = 1500 if tier == "quick" else 12000
     out = [(f"c02:{i}", gen.program_c02(rnd), ["canon"]) for i in range(n)]
     # the general generator also produces closures, loops and nested functions
     for i in range(n // 2):
@@ -42,13 +44,13 @@ def fam_c02(rnd, tier):
 
 @family("C03")
 def fam_c03(rnd, tier):
-    n = 500 if tier == "quick" else 15000
+    n = 1200 if tier == "quick" else 15000
     return [(f"c03:{i}", gen.program_c03(rnd), ["canon"]) for i in range(n)]
 
 
 @family("C04")
 def fam_c04(rnd, tier):
-    n = 500 if tier == "quick" else 15000
+    n = 2000 if tier == "quick" else 15000
     out = [(f"c04:{i}", gen.program_c04(rnd), ["canon"]) for i in range(n)]
     for i in range(n // 3):
         ast, pos = gen.program_c01(rnd, opts=dict(err=0.15))
@@ -74,7 +76,7 @@ def fam_c14(rnd, tier):
     out = []
     for i, ast in enumerate(gen.operator_table_programs()):
         out.append((f"c14op:{i}", ast, ["canon"]))
-    n = 250 if tier == "quick" else 8000
+    n = 500 if tier == "quick" else 8000
     for i in range(n):
         ast, pos = gen.program_c01(rnd)
         out.append((f"c14:{i}:{pos}", ast, ["canon"]))
@@ -88,25 +90,25 @@ def fam_c14(rnd, tier):
 
 @family("C18")
 def fam_c18(rnd, tier):
-    n = 600 if tier == "quick" else 20000
+    n = 2500 if tier == "quick" else 20000
     return [(f"c18:{i}", gen.program_c18(rnd), ["canon", "pad"]) for i in range(n)]
 
 
 @family("C17")
 def fam_c17(rnd, tier):
-    n = 500 if tier == "quick" else 15000
+    n = 2500 if tier == "quick" else 15000
     return [(f"c17:{i}", gen.program_c17(rnd), ["canon"]) for i in range(n)]
 
 
 @family("C10")
 def fam_c10(rnd, tier):
-    n = 500 if tier == "quick" else 20000
+    n = 1500 if tier == "quick" else 20000
     return [(f"c10:{i}", gen.program_c10(rnd), ["canon"]) for i in range(n)]
 
 
 @family("C11")
 def fam_c11(rnd, tier):
-    n = 500 if tier == "quick" else 20000
+    n = 800 if tier == "quick" else 20000
     return [(f"c11:{i}", gen.program_c11(rnd), ["canon"]) for i in range(n)]
 
 
@@ -119,7 +121,7 @@ ERR_CLASSES = ["RuntimeError", "IndexError", "Error", "RuntimeError", "RuntimeEr
 def fam_c19(rnd, tier):
     """interactive sessions: the top-level statements of generated modules entered one per line, with lines that
     fail to compile and lines that raise thrown in; the model runs the same entries as a session"""
-    n = 300 if tier == "quick" else 10000
+    n = 1200 if tier == "quick" else 10000
     out = []
     for i in range(n):
         c = rnd.random()
@@ -255,6 +257,10 @@ def run(pid, tier, replay=None):
             diff = langrun.compare_traceback(p, r, vc["_lines"])
         if diff:
             c = bycase[vc["_case"]]
+            listed = [fid for fid, f in kf.items() if vc["_case"] in f.get("classes", [])]
+            if listed:
+                v.known_finding(listed[0], vc["id"])
+                continue
             v.violation(f"{vc['id']} [{vc['_rep']} build]: {diff}"[:500],
                         {"id": c["id"], "layout": vc["_layout"], "ast": c["ast"], "source": vc["files"]["main.lay"], "files": vc["files"], "build": vc["_rep"],
                          "predicted": {"out": p["out"], "st": p["st"]},
